@@ -44,6 +44,14 @@ Definition convert_slice (a b c : option expr) : expr :=
   let v := fun o => match o with Some x => x | None => cnone end in
   call (Name "slice") [v a; v b; v c].
 
+(* utils.convert_index: slices, also inside an index tuple, become slice() calls *)
+Fixpoint convert_index (e : expr) : expr :=
+  match e with
+  | Slice a b c => convert_slice a b c
+  | ETuple elts => ETuple (map convert_index elts)
+  | _ => e
+  end.
+
 (* ---------- expr_transform.py ---------- *)
 Fixpoint target_names (t : expr) : res (list ident) :=
   match t with
@@ -73,7 +81,9 @@ Section Transf.
       (fix go (gs : list comprehension) : res (list ident) :=
          match gs with
          | [] => ret []
-         | (t, _, _, _) :: r => let! a := target_names t in let! b := go r in ret (a ++ b)
+         | (t, _, _, is_async) :: r =>
+             if is_async : bool then fail ERuntime        (* asynchronous comprehensions are refused *)
+             else let! a := target_names t in let! b := go r in ret (a ++ b)
          end) gs in
     match e with
     | Name i => get_load_name n comp i
@@ -242,8 +252,7 @@ Section Assign.
   Definition assign_subscript (v s value : expr) : res expr :=
     let! v' := tr n v in
     let! s1 := tr n s in
-    let s' := match s1 with Slice a b c => convert_slice a b c | _ => s1 end in
-    ret (call (Attribute v' "__setitem__") [s'; value]).
+    ret (call (Attribute v' "__setitem__") [convert_index s1; value]).
 
   Definition assign_attribute (v : expr) (a : ident) (value : expr) : res expr :=
     let! v' := tr n v in ret (call (Name "setattr") [v'; cstr a; value]).
@@ -309,8 +318,7 @@ Definition lower_augassign (n : nsp) (p : path) (target : expr) (op : binop) (va
   | Subscript par s =>
       let tmps := ol "sllice" (path_str p) in
       let! par' := tr n par in
-      let s0 := match s with Slice a b c => convert_slice a b c | _ => s end in
-      let! s' := tr n s0 in
+      let! s' := tr n (convert_index s) in
       ret [NamedExpr tmps s';
            NamedExpr tmp (Subscript par' (Name tmps));
            call (Attribute par' "__setitem__")
